@@ -23,6 +23,7 @@ RULE = ("case = history of 20..150 (quick) / up to 700 (thorough) steps: constru
         "different option tuple, or after a mutation of its earlier result, or after >= 256 other distinct keys, or a format whose first item was used by an earlier different call, or any call after a Dtype-from-Dtype call; distinct = SHA-1 of the history.")
 ASSUMPTIONS = ["the cold oracle clears every callable exposing cache_clear that is reachable from the package's modules and classes; this discovery is cross-validated "
                "against fresh interpreters at the start of every run (mismatch = harness error, exit 2)",
+               "the cold answer is computed in a child forked, per call, from a process that has imported the package and evaluated nothing: it cannot depend on earlier calls through any kind of state",
                "results are compared as bits / value lists / exception class name / Dtype observables (name, length, bitlength, scale, build and parse of a probe)"]
 
 OPT_NAMES = ['lsb0', 'bytealigned', 'mxfp_overflow']
@@ -103,6 +104,24 @@ def evaluate(call, keep=None):
                 except Exception as e:  # noqa
                     obs.append(['exc', type(e).__name__])
             return ['ok', obs]
+        if kind == 'read_dtype':
+            # read / peek with a Dtype OBJECT (possibly without a length, possibly scaled)
+            _, bits, token, length, scale, how = call
+            args = [token] + ([length] if length is not None else [])
+            d = bs.Dtype(*args, scale=scale) if scale is not None else bs.Dtype(*args)
+            st_ = bs.ConstBitStream(bin=bits)
+            r = st_.read(d) if how == 'read' else st_.peek(d)
+            return ['ok', nv(r), st_.pos]
+        if kind == 'unpack_dtypes':
+            # unpack / readlist / peeklist with a list of Dtype objects
+            _, bits, specs, how = call
+            ds = []
+            for token, length, scale in specs:
+                args = [token] + ([length] if length is not None else [])
+                ds.append(bs.Dtype(*args, scale=scale) if scale is not None else bs.Dtype(*args))
+            st_ = bs.ConstBitStream(bin=bits)
+            r = st_.unpack(ds) if how == 'unpack' else (st_.readlist(ds) if how == 'readlist' else st_.peeklist(ds))
+            return ['ok', [nv(v) for v in r], st_.pos]
         if kind == 'dtype_of_dtype':
             token, length, scale1, scale2 = call[1], call[2], call[3], call[4]
             args = [token] + ([length] if length is not None else [])
@@ -345,14 +364,39 @@ def frag_call_st(draw):
     return [what, bits, fmt, kw]
 
 
+SCALES = [None, None, 2, 4, 0.5, 2.0]
+
+
+@st.composite
+def dtype_obj_call_st(draw):
+    """the same few dtypes as Dtype objects with different scales, with and without a length, in read / peek / unpack / readlist / peeklist"""
+    bits = draw(bits_st(max_len=48, min_len=16))
+    if draw(st.booleans()):
+        token = draw(st.sampled_from(['uint', 'int', 'uint', 'float', 'hex', 'ue', 'uie', 'se', 'uint8', 'e4m3mxfp']))
+        length = None if token in ('ue', 'uie', 'se', 'uint8', 'e4m3mxfp') else draw(st.sampled_from([None, None, 8, 16]))
+        if token == 'float':
+            length = 16
+            bits = bits[:16] if draw(st.booleans()) else bits
+        if token == 'hex':
+            bits = bits[:len(bits) // 4 * 4]
+        return ['read_dtype', bits, token, length, draw(st.sampled_from(SCALES)) if token != 'hex' else None, draw(st.sampled_from(['read', 'peek']))]
+    specs = []
+    for _ in range(draw(st.integers(1, 3))):
+        token = draw(st.sampled_from(['ue', 'uie', 'se', 'uint', 'int']))
+        specs.append([token, None if token in ('ue', 'uie', 'se') else draw(st.sampled_from([3, 8])), draw(st.sampled_from(SCALES))])
+    return ['unpack_dtypes', bits, specs, draw(st.sampled_from(['unpack', 'readlist', 'peeklist']))]
+
+
 @st.composite
 def call_st(draw):
-    k = draw(st.integers(0, 14))
+    k = draw(st.integers(0, 15))
     if k == 12:
         token = draw(st.sampled_from(['uint8', 'float16', 'int12', 'e4m3mxfp', 'uint', 'u8', 'mxint', 'hex']))
         length = 8 if token in ('uint', 'hex') else None
         return ['dtype_of_dtype', token, length, draw(st.sampled_from([None, None, 2, 0.5])), draw(st.sampled_from([None, 2, 4, 0.5, 1]))]
-    if k >= 13:
+    if k == 13:
+        return draw(dtype_obj_call_st())
+    if k >= 14:
         return draw(frag_call_st())
     if k <= 4:
         s = string_pool_item(draw)
@@ -468,6 +512,17 @@ def dtype_focus_st(draw, tier):
             steps.append(['call', [draw(st.sampled_from(['construct', 'fromstring'])), 'Bits', f'{tok2}=3' if not token.startswith('hex') else 'hex8=a5']])
             steps.append(['call', ['read', '0101101001011010', tok2]])
         steps.append(['call', ['dtype', token, None, draw(st.sampled_from([None, 1, 1.0, 2, 2.0, 0.5, True])), draw(st.sampled_from([1, 2.0, 4]))]])
+        if draw(st.integers(0, 2)) == 0:
+            c1 = draw(dtype_obj_call_st())
+            steps.append(['call', c1])
+            # the same call again with every scale changed / removed
+            c2 = json.loads(json.dumps(c1))
+            if c2[0] == 'read_dtype' and c2[2] != 'hex':
+                c2[4] = draw(st.sampled_from(SCALES))
+            elif c2[0] == 'unpack_dtypes':
+                for sp in c2[2]:
+                    sp[2] = draw(st.sampled_from(SCALES))
+            steps.append(['call', c2])
         if draw(st.integers(0, 3)) == 0:
             steps.append(['fill', draw(st.integers(0, 1000)), 300])
     return {'steps': steps}
@@ -517,6 +572,10 @@ def run(case):
             for j in range(step[2]):
                 attempt(bs.Bits, f'uint:{17 + (j % 13)}={base * 1000 + j}')
                 attempt(bs.Dtype, 'uint', 1 + (base + j) % 997)
+                attempt(bs.Dtype, f'int{2 + (base + j) % 991}')
+                if j % 2 == 0:
+                    attempt(lambda: bs.ConstBitStream(bin='1' * 40).read(f'uint:{1 + (base * 7 + j) % 37}'))
+                    attempt(getattr, bs.Bits(bin='1' * 24), f'u{1 + j % 24}')
                 if j % 3 == 0:
                     attempt(lambda: bs.Bits(bin='1' * 40).unpack(f'uint:{1 + (base + j) % 30}, bin'))
             distinct_keys += step[2]
